@@ -241,12 +241,40 @@ func (s *SweepingProvider) StopProviding(keys ...mh.Multihash) error
 # spawned; the run loop is spawned with the wait group incremented.
 func getOpts(opts []Option) (config, error)
   modifies *
-func (s *SweepingProvider) setCycleStart(resume bool)
-  modifies *
 func (s *SweepingProvider) clearReprovideHistory()
   modifies *
+# The main loop: exits only on the close signal and reports to the wait group;
+# pending work (failed provides, late regions) is retried on a PERIODIC tick
+# (a ticker of retryInterval, not a one-shot timer) whenever the node is online;
+# the schedule alarm is handled by handleReprovide.
 func (s *SweepingProvider) run()
+  props C17 C14
+  ghostvar $online bool = false
   modifies *
+  ensures [exit-only-on-close-signal] tagged("recv:s.done")
+  ensures [accounted] tagged("wgdone:s.wg")
+  ghost at before call(NewTicker): assert($arg0 == retryInterval)
+  ghost at call(IsOnline): $online = $ret0
+  ghost at before call(catchupPendingWork): assert($online && tagged("recv:retryTicker.C"))
+  ghost at before call(handleReprovide): assert(tagged("recv:s.scheduleTimer.C"))
+
+# The persisted cycle start is (re)written only when this start uses the current
+# time as cycle start (fresh start, or nothing usable stored): a resumed start
+# keeps the stored value, so that the next restart resumes the SAME cycle.
+func (s *SweepingProvider) setCycleStart(resume bool)
+  props C17
+  ghostvar $eq bool = false
+  ghostvar $stored time.Time = any
+  ghostvar $rerr error = nil
+  ghostvar $zero bool = true
+  ghostvar $read bool = false
+  modifies *
+  ghost at call(readCycleStart): $stored = $ret0; $rerr = $ret1; $read = true
+  ghost at call(IsZero): $zero = $ret0
+  ghost at call(Equal): $eq = $ret0
+  ghost at before call(Equal): assert($recv == cycleStart && $arg0 == now)
+  ghost at before call(writeCycleStart): assert($eq && $arg0 == now)
+  ghost at assign(s.cycleStart): assert(imp(resume && $read && $rerr == nil && !$zero, cycleStart == $stored) && imp(!resume, cycleStart == now))
 
 func New(opts ...Option) (*SweepingProvider, error)
   props C14
